@@ -981,6 +981,16 @@ func doCustom(sub string, c customCase) string {
 	default:
 		rec.Class("custom/callback-invocations/2+")
 	}
+	if strings.HasSuffix(c.Ctx, "pathy") && o.calls > 0 {
+		switch {
+		case o.outputs > 0:
+			rec.Class("custom/pathy+invoked/outputs")
+		case o.errored:
+			rec.Class("custom/pathy+invoked/error-only")
+		default:
+			rec.Class("custom/pathy+invoked/empty")
+		}
+	}
 	switch {
 	case o.errored && o.outputs > 0:
 		rec.Class("custom/result/outputs-then-error")
